@@ -52,6 +52,10 @@ def listSet (l : List Int) (i v : Int) : Option (List Int) :=
 /-- a non-constant integer divisor: `none` is Go's division-by-zero panic -/
 def nonZero (x : Int) : Option Int := if x = 0 then none else some x
 
+/-- a float sample read from / stored into a buffer cell: the cell holds the bit pattern of the format -/
+def decodeF (F : Fmt) (x : Int) : FV := decodeBits F x.toNat
+def encodeF (F : Fmt) (v : FV) : Int := ((encodeBits F v : Nat) : Int)
+
 /-- the iterations `is` of a `for` loop whose body threads the heap, the written buffer's header and the written
 caller's slice (the translator admits only bodies that assign no variable declared outside the loop) -/
 def forList (body : Int → Heap → Buf → List Int → Res (Buf × List Int)) :
